@@ -80,7 +80,10 @@ def _dec2base(value, places=None, base=16):
     if places is None:
         places = 0
     else:
-        places = int(places)
+        try:
+            places = int(places)
+        except ValueError:
+            return VALUE_ERROR
         if places < len(value):
             return NUM_ERROR
     return value.zfill(int(places))
